@@ -3,7 +3,7 @@
 # that are recorded as catching it, expects exit 1 with a VIOLATION line, reverts.  /repo must be clean.
 cd /verif || exit 9
 [ -z "$(git -C /repo status --porcelain)" ] || { echo "/repo is not clean"; exit 9; }
-map() { case "$1" in C03-a|C04-a|C05-a) echo C05;; C14-a) echo C02;; C04-b) echo C03;; *) echo "${1%-*}";; esac; }
+map() { case "$1" in C03-a|C04-a|C05-a) echo C05;; C14-a) echo C02;; C04-b) echo C03;; C06-e) echo C06;; *) echo "${1%-*}";; esac; }
 SEEDS="$@"; [ -n "$SEEDS" ] || SEEDS=$(ls seeded)
 rc=0
 for s in $SEEDS; do
